@@ -2,6 +2,8 @@ package explore
 
 import (
 	"fmt"
+	"math/big"
+	"sort"
 	"strings"
 
 	"github.com/MinterTeam/minter-go-node/coreV2/types"
@@ -93,7 +95,28 @@ func ImportTwin(w *worlds.World, h History, menu []int, st *ImportStats) []Viola
 		return out
 	}
 	if d := importDiff(base.Final().Flat, re.Init.Flat); len(d) > 0 {
-		mk("reexport|"+obs.KeyClass(d[0].Key), fmt.Sprintf("export at height %d and the export of a chain started from it differ in %d keys, first: %s", n.Height, len(d), d[0]), h)
+		// derived stake values and the validator set are recomputed by InitChain as at a period
+		// boundary; when that is the only difference it is reported once, under its own
+		// signature, and the follow-up blocks (whose rewards, powers and delegation limits are
+		// mere consequences) are not judged for this state
+		onlyDerived := true
+		// pending stake updates are merged into the stakes by InitChain: stake / update entries
+		// count as derived when stake + updates per (candidate, owner, coin) are unchanged
+		netEqual := netStakes(&base.Final().Export) == netStakes(&re.Init.Export)
+		for _, e := range d {
+			if netEqual && strings.HasPrefix(e.Key, "cand/") && (strings.Contains(e.Key, "/stake/") || strings.Contains(e.Key, "/update/")) {
+				continue
+			}
+			if !derivedKey(e.Key) {
+				onlyDerived = false
+				mk("reexport|"+obs.KeyClass(e.Key), fmt.Sprintf("export at height %d and the export of a chain started from it differ in %d keys, first non-derived: %s", n.Height, len(d), e), h)
+				break
+			}
+		}
+		if onlyDerived {
+			mk("reexport|derived-stake-and-validator-data-recomputed", fmt.Sprintf("export at height %d and the export of a chain started from it differ in %d derived keys (bip values / total stakes / validator set), first: %s", n.Height, len(d), d[0]), h)
+			return out
+		}
 	}
 	if base.Final().Emission.Cmp(re.Init.Emission) != 0 {
 		mk("reexport|emission", fmt.Sprintf("emission %s vs %s", base.Final().Emission, re.Init.Emission), h)
@@ -156,4 +179,38 @@ func typeOf(b []byte) string {
 		return "undecodable"
 	}
 	return tx.Type.String()
+}
+
+// derivedKey reports whether an export key holds data that InitChain recomputes from the
+// stakes (bip values, total stakes) or the validator set derived from them.
+func derivedKey(k string) bool {
+	return strings.HasSuffix(k, "/bip_value") || strings.HasSuffix(k, "/total_bip_stake") || strings.HasPrefix(k, "val/") || (strings.HasPrefix(k, "cand/") && strings.Contains(k, "/bip_value#"))
+}
+
+// netStakes renders stake + pending updates per (candidate id, owner, coin).
+func netStakes(st *types.AppState) string {
+	m := map[string]*big.Int{}
+	for _, c := range st.Candidates {
+		for _, list := range [][]types.Stake{c.Stakes, c.Updates} {
+			for _, x := range list {
+				k := fmt.Sprintf("%d/%s/%d", c.ID, x.Owner.String(), x.Coin)
+				if m[k] == nil {
+					m[k] = new(big.Int)
+				}
+				m[k].Add(m[k], obs.Num(x.Value))
+			}
+		}
+	}
+	keys := make([]string, 0, len(m))
+	for k := range m {
+		keys = append(keys, k)
+	}
+	sort.Strings(keys)
+	out := ""
+	for _, k := range keys {
+		if m[k].Sign() != 0 {
+			out += k + "=" + m[k].String() + ";"
+		}
+	}
+	return out
 }
